@@ -221,24 +221,111 @@ theorem freeBytes_flatMap' {α : Type} (l : List α) (f : α → List Event) :
   freeBytes_flatMap l f _ (fun _ => rfl)
 end PsV.C19
 
+/-! ## sequences made of per-item segments -/
+namespace PsV.C19
+
+/-- A sequence made of one segment per item, where the segment of `a` leaves `net a` more bytes live than it found
+    and never has more than `net a + C` above its starting level: at the end `Σ net` more bytes are live, and the
+    level never rose more than `Σ net + C` above the start. -/
+theorem segments_run {α : Type} (as : List α) (f : α → List Event) (net : α → Nat) (C : Nat)
+    (h : ∀ a ∈ as, ∀ l, liveAfter l (f a) = l + net a ∧ peakFrom l (f a) ≤ l + net a + C ∧ balanced l (f a) = true)
+    (l : Nat) :
+    liveAfter l (as.flatMap f) = l + (as.map net).sum ∧
+    peakFrom l (as.flatMap f) ≤ l + (as.map net).sum + C ∧
+    balanced l (as.flatMap f) = true := by
+  induction as generalizing l with
+  | nil => simp [liveAfter, peakFrom, balanced]
+  | cons a as ih =>
+    obtain ⟨h1, h2, h3⟩ := h a (List.mem_cons_self ..) l
+    obtain ⟨i1, i2, i3⟩ := ih (fun b hb => h b (List.mem_cons_of_mem _ hb)) (l + net a)
+    simp only [List.flatMap_cons, List.map_cons, List.sum_cons]
+    refine ⟨?_, ?_, ?_⟩
+    · rw [liveAfter_append, h1, i1]; omega
+    · rw [peakFrom_append, h1]; omega
+    · rw [balanced_append, h3, h1, i3]; rfl
+
+end PsV.C19
+
 /-! ## closed forms of the generated event sequences -/
 namespace PsV.C19
 open PsV.Generated.C19
 
-/-- bytes of the auxiliary entries: the pair of pointers and the two strings of every entry -/
-def auxBytes (as : List AuxEntry) : Nat := (as.map fun a => 16 + (a.keylen + a.vallen)).sum
+/-- bytes of the auxiliary entries that stay live: the pair of pointers, the key and the stored value of every entry -/
+def auxBytes (as : List AuxEntry) : Nat := (as.map fun a => 16 + (a.keylen + a.storedlen)).sum
 
-theorem read_allocOnly (p : Params) : allocOnly (readEvents p) = true := by
-  simp only [readEvents, readBlocks, interp, evalSite, allocOnly, allocOnly_append, List.map_cons, List.map_nil,
-    Bool.and_eq_true, and_true, true_and, Bool.and_true, Bool.true_and]
-  exact ⟨allocOnly_flatMap _ _ (fun _ => rfl), allocOnly_flatMap _ _ (fun _ => rfl)⟩
+/-- What the reader requests for one auxiliary card: the pointer pair, the key, a block of the raw value length, and
+    - when the stored string is shorter than the raw card value (the value was quoted) - a second block of the exact
+    length, after which the first one is released. -/
+def auxSeg (a : AuxEntry) : List Event :=
+  [.alloc 16, .alloc a.keylen, .alloc a.vallen] ++
+    (if a.storedlen != a.vallen then [.alloc a.storedlen, .free a.vallen] else [])
 
-/-- Everything `read_fits_core` requests stays live: its footprint. -/
-theorem read_bytes (p : Params) :
-    allocBytes (readEvents p) =
-      8 * p.aux.length + auxBytes p.aux + 68 * p.dims.length + 4 * prodNaxes p.dims + knotBytes p.dims := by
-  simp [readEvents, readBlocks, interp, evalSite, topEnv, allocBytes, allocBytes_append, allocBytes_flatMap', auxBytes, knotBytes]
+/-- What the reader requests after the auxiliary cards: only allocations. -/
+def readTail (p : Params) : List Event :=
+  [.alloc (p.dims.length * 4), .alloc (p.dims.length * 8), .alloc (p.dims.length * 8), .alloc (p.dims.length * 8),
+   .alloc (p.dims.length * 8), .alloc (2 * p.dims.length * 8), .alloc (p.dims.length * 8), .alloc (p.dims.length * 8),
+   .alloc (prodNaxes p.dims * 4)] ++ p.dims.flatMap (fun d => [.alloc ((d.nknots + 2 * d.order) * 8)])
+
+/-- The generated call sites of `read_fits_core`, evaluated: the array of entries, one segment per card, the rest. -/
+theorem readEvents_eq (p : Params) :
+    readEvents p = .alloc (p.aux.length * 8) :: (p.aux.flatMap auxSeg ++ readTail p) := by
+  have haux : ∀ a : AuxEntry,
+      evalSites { topEnv p p.dims p.dims with keylen := a.keylen, valuelen := a.vallen, storedlen := a.storedlen }
+        [⟨.alloc, 8, fun v => 2, fun v => true⟩, ⟨.alloc, 1, fun v => v.keylen, fun v => true⟩,
+         ⟨.alloc, 1, fun v => v.valuelen, fun v => true⟩,
+         ⟨.alloc, 1, fun v => v.storedlen, fun v => (v.storedlen != v.valuelen)⟩,
+         ⟨.free, 1, fun v => v.valuelen, fun v => (v.storedlen != v.valuelen)⟩] = auxSeg a := by
+    intro a
+    by_cases h : (a.storedlen != a.vallen) = true <;> simp [evalSites, evalSite, auxSeg, List.filter, h]
+  simp only [readEvents, readBlocks, interp, haux]
+  simp [evalSites, evalSite, topEnv, readTail]
+
+/-- One card: `16 + keylen + storedlen` bytes stay; while both value blocks exist `vallen` more are live. -/
+theorem auxSeg_run (a : AuxEntry) (l : Nat) :
+    liveAfter l (auxSeg a) = l + (16 + (a.keylen + a.storedlen)) ∧
+    peakFrom l (auxSeg a) ≤ l + (16 + (a.keylen + a.storedlen)) + a.vallen ∧
+    balanced l (auxSeg a) = true := by
+  by_cases h : a.storedlen = a.vallen
+  · simp [auxSeg, h, liveAfter, peakFrom, balanced, step]; omega
+  · simp [auxSeg, h, liveAfter, peakFrom, balanced, step]; omega
+
+theorem readTail_allocOnly (p : Params) : allocOnly (readTail p) = true := by
+  simp only [readTail, allocOnly_append, allocOnly, Bool.true_and]
+  exact allocOnly_flatMap _ _ (fun _ => rfl)
+
+theorem readTail_bytes (p : Params) :
+    allocBytes (readTail p) = 68 * p.dims.length + 4 * prodNaxes p.dims + knotBytes p.dims := by
+  simp [readTail, allocBytes, allocBytes_flatMap', knotBytes]
   omega
+
+/-- bytes live when `read_fits_core` returns: the footprint of the loaded table -/
+def readBytes (p : Params) : Nat :=
+  8 * p.aux.length + auxBytes p.aux + 68 * p.dims.length + 4 * prodNaxes p.dims + knotBytes p.dims
+
+/-- Loading: exactly the footprint is live at the end; the level never exceeds the larger of the footprint and
+    (array of entries + all cards + `C`), `C` bounding the raw value length of every card (the first block of a quoted
+    value is still live when its exact-size replacement is requested); nothing is over-released. -/
+theorem read_run (p : Params) (C : Nat) (hC : ∀ a ∈ p.aux, a.vallen ≤ C) :
+    liveAfter 0 (readEvents p) = readBytes p ∧
+    peakFrom 0 (readEvents p) ≤ max (8 * p.aux.length + auxBytes p.aux + C) (readBytes p) ∧
+    balanced 0 (readEvents p) = true := by
+  obtain ⟨s1, s2, s3⟩ := segments_run p.aux auxSeg (fun a => 16 + (a.keylen + a.storedlen)) C
+    (fun a ha l => by
+      obtain ⟨h1, h2, h3⟩ := auxSeg_run a l
+      have := hC a ha
+      exact ⟨h1, by omega, h3⟩) (p.aux.length * 8)
+  obtain ⟨t1, t2, t3⟩ := allocOnly_run _ (readTail_allocOnly p) (p.aux.length * 8 + auxBytes p.aux)
+  rw [readTail_bytes] at t1 t2
+  have e : (p.aux.map fun a => 16 + (a.keylen + a.storedlen)).sum = auxBytes p.aux := rfl
+  rw [e] at s1 s2
+  rw [readEvents_eq]
+  refine ⟨?_, ?_, ?_⟩
+  · show liveAfter (0 + p.aux.length * 8) _ = _
+    rw [Nat.zero_add, liveAfter_append, s1, t2]; unfold readBytes; omega
+  · show max 0 (peakFrom (0 + p.aux.length * 8) _) ≤ _
+    rw [Nat.zero_add, peakFrom_append, s1, t1]; unfold readBytes; omega
+  · show balanced (0 + p.aux.length * 8) _ = true
+    rw [Nat.zero_add, balanced_append, s3, s1, t3]; rfl
 
 /-- `convolve` first releases the coefficients and every knot vector … -/
 def convFrees (p : Params) : List Event :=
@@ -250,7 +337,7 @@ def convAllocs (p : Params) : List Event :=
 
 /-- The source order of the allocator calls of `convolve` (generated) is: all frees, then all allocations. -/
 theorem convolveEvents_eq (p : Params) : convolveEvents p = convFrees p ++ convAllocs p := by
-  simp [convolveEvents, convolveBlocks, interp, evalSite, topEnv, convFrees, convAllocs]
+  simp [convolveEvents, convolveBlocks, interp, evalSites, evalSite, topEnv, convFrees, convAllocs]
 
 theorem convFrees_freeOnly (p : Params) : freeOnly (convFrees p) = true := by
   simp only [convFrees, freeOnly]
@@ -269,6 +356,10 @@ theorem convAllocs_bytes (p : Params) :
   simp [convAllocs, allocBytes, allocBytes_flatMap', knotBytes]
   omega
 
+/-- bytes live when `convolve` returns: the footprint of the convolved table -/
+def convolvedBytes (p : Params) : Nat :=
+  8 * p.aux.length + auxBytes p.aux + 68 * p.dims.length + 4 * prodNaxes (convDims p) + knotBytes (convDims p)
+
 /-- What `estimateMemory` returns, in closed form, when it counts `naux` auxiliary cards. -/
 theorem estimateWith_ge (naux : Nat) (p : Params) :
     p.objsize + knotBytes (estDims p) + 68 * p.dims.length + 4 * prodNaxes (estDims p) + 146 * naux + 1025
@@ -276,34 +367,44 @@ theorem estimateWith_ge (naux : Nat) (p : Params) :
   simp only [estimateWith, rawSizeWith, sizeInit, fixedTerms, roundingTerm, sumKnotTerms_eq, List.sum_cons, List.sum_nil]
   omega
 
-end PsV.C19
+theorem auxBytes_le (as : List AuxEntry) (h : ∀ a ∈ as, a.keylen + a.vallen ≤ 82) (hs : ∀ a ∈ as, a.storedlen ≤ a.vallen) :
+    auxBytes as ≤ 98 * as.length :=
+  sum_map_le as _ 98 (fun a ha => by have := h a ha; have := hs a ha; omega)
 
-namespace PsV.C19
-open PsV.Generated.C19
-
-theorem auxBytes_le (as : List AuxEntry) (h : ∀ a ∈ as, a.keylen + a.vallen ≤ 82) : auxBytes as ≤ 98 * as.length :=
-  sum_map_le as _ 98 (fun a ha => by have := h a ha; omega)
-
-/-- Peak of load-then-convolve in closed form: the larger of the footprint after loading and the footprint
-    after convolving (nothing in between exceeds them because `convolve` frees before it allocates). -/
-theorem peak_read_convolve (p : Params) :
+/-- Load-then-convolve: the level never exceeds the largest of the transient while reading the auxiliary cards, the
+    footprint after loading and the footprint after convolving (nothing in between exceeds them because `convolve`
+    frees before it allocates); at the end exactly the footprint of the convolved table is live. -/
+theorem read_convolve_run (p : Params) (C : Nat) (hC : ∀ a ∈ p.aux, a.vallen ≤ C) :
     balanced 0 (readEvents p ++ convolveEvents p) = true ∧
-    peak (readEvents p ++ convolveEvents p) =
-      max (allocBytes (readEvents p))
-          (allocBytes (readEvents p) - freeBytes (convFrees p) + allocBytes (convAllocs p)) ∧
-    liveAfter 0 (readEvents p ++ convolveEvents p) =
-      allocBytes (readEvents p) - freeBytes (convFrees p) + allocBytes (convAllocs p) := by
-  obtain ⟨r1, r2, r3⟩ := allocOnly_run _ (read_allocOnly p) 0
-  have hle : freeBytes (convFrees p) ≤ 0 + allocBytes (readEvents p) := by
-    rw [convFrees_bytes, read_bytes]; omega
-  obtain ⟨f1, f2, f3⟩ := freeOnly_run _ (convFrees_freeOnly p) (0 + allocBytes (readEvents p)) hle
-  obtain ⟨a1, a2, a3⟩ := allocOnly_run _ (convAllocs_allocOnly p)
-    (0 + allocBytes (readEvents p) - freeBytes (convFrees p))
+    peak (readEvents p ++ convolveEvents p) ≤
+      max (8 * p.aux.length + auxBytes p.aux + C) (max (readBytes p) (convolvedBytes p)) ∧
+    liveAfter 0 (readEvents p ++ convolveEvents p) = convolvedBytes p := by
+  obtain ⟨r1, r2, r3⟩ := read_run p C hC
+  have hle : freeBytes (convFrees p) ≤ readBytes p := by
+    rw [convFrees_bytes]; unfold readBytes; omega
+  obtain ⟨f1, f2, f3⟩ := freeOnly_run _ (convFrees_freeOnly p) (readBytes p) hle
+  obtain ⟨a1, a2, a3⟩ := allocOnly_run _ (convAllocs_allocOnly p) (readBytes p - freeBytes (convFrees p))
+  have hfin : readBytes p - freeBytes (convFrees p) + allocBytes (convAllocs p) = convolvedBytes p := by
+    rw [convFrees_bytes, convAllocs_bytes]; unfold readBytes convolvedBytes; omega
   refine ⟨?_, ?_, ?_⟩
-  · rw [convolveEvents_eq, balanced_append, balanced_append, r3, r2, f3, f2, a3]; rfl
+  · rw [convolveEvents_eq, balanced_append, balanced_append, r3, r1, f3, f2, a3]; rfl
   · unfold peak
-    rw [convolveEvents_eq, peakFrom_append, peakFrom_append, r1, r2, f1, f2, a1]; omega
-  · rw [convolveEvents_eq, liveAfter_append, liveAfter_append, r2, f2, a2]; omega
+    rw [convolveEvents_eq, peakFrom_append, peakFrom_append, r1, f1, f2, a1, hfin]; omega
+  · rw [convolveEvents_eq, liveAfter_append, liveAfter_append, r1, f2, a2, hfin]
 
+theorem le_sum_of_mem (l : List Nat) (x : Nat) (h : x ∈ l) : x ≤ l.sum := by
+  induction l with
+  | nil => cases h
+  | cons y l ih =>
+    simp only [List.sum_cons]
+    cases h with
+    | head => omega
+    | tail _ h => have := ih h; omega
+
+/-- The exact number of bytes live after load-then-convolve (no hypothesis). -/
+theorem live_after_read_convolve (p : Params) :
+    liveAfter 0 (readEvents p ++ convolveEvents p) = convolvedBytes p :=
+  (read_convolve_run p ((p.aux.map (·.vallen)).sum)
+    (fun _ ha => le_sum_of_mem _ _ (List.mem_map_of_mem ha))).2.2
 
 end PsV.C19
